@@ -17,7 +17,9 @@ CFG = {
     "race": True,
     "trivial_outputs": ["hang"],
     "timeout": {"quick": 600, "thorough": 3000},
-    "rule": "scheduled runs of the real event.Feed: per round 1-5 initial + 0-2 late subscribers (channel capacity 0/1/2/4; fast, slow, lazy and "
+    "rule": "(TypeMux) 2500 rounds on the real event.TypeMux: 2-5 + 0-2 late receivers with type masks over int/string/float64, fast/slow/lazy/dead readers "
+            "(a Post parks on a dead first receiver), 1-3 posters, Unsubscribe of first/middle/last receiver at random points, Stop during 1 in 4 rounds; judged by the "
+            "Spec (duplicate, lost, late, api, deadlock). (Feed) scheduled runs of the real event.Feed: per round 1-5 initial + 0-2 late subscribers (channel capacity 0/1/2/4; fast, slow, lazy and "
             "never-receiving 'dead' receivers), 1-3 concurrent senders x 1-4 values, Unsubscribe at random points (incl. while a Send is blocked "
             "on that very subscriber, double Unsubscribe, Unsubscribe of a subscription still in the inbox), SubscriptionScope Track/Close, a final "
             "probe Send; schedules: plain runtime, random Gosched, priority (PCT-style) and gated perturbation at the five verif yield points in "
@@ -32,6 +34,8 @@ CFG = {
             "f.sendCases / f.inbox at quiescence": "corr (overlay accessor vs model theorem quiescent_membership)",
             "SubscriptionScope.Track/Close/Count": "model Aqv.Model.Scope (theorems scope_*) + direct judgement on the real code (kinds late, api)",
             "feedSub.Unsubscribe (errOnce)": "direct Spec judgement on the real code (model: one remove per subscription)",
+            "TypeMux.Subscribe/Post/Stop/del/posdelete, TypeMuxSubscription.Unsubscribe/closewait/deliver": "corr (trace validation against the Spec the Mux model is proved to "
+                                                                                                   "satisfy; heap-of-arrays model, in-place compaction refuted by mux_inplace_delete_witness)",
             "data races (first use of f.etype, once.Do(init), scope map)": "race detector on the real code in every tier (obligation named by etype_write_requires_mu)",
             "yield points": "verif hook present: %s" % _HOOK},
     "assumptions": ["Go runtime semantics are modelled, not verified: channel operations, reflect.Select choosing some ready case, sync.Mutex, sync.Once; "
@@ -41,6 +45,7 @@ CFG = {
                     "stays forever subscribed and unable to accept a value, and a goroutine blocked on <-f.sendLock does not wait forever while the token "
                     "recurs (Go: FIFO wait queue of a channel); no assumption on which ready case reflect.Select picks"],
     "trusted_base": ["Model.Feed mirrors aqua/event/feed.go Send/remove/Subscribe step by step (index arithmetic of deactivate/delete included)",
+                     "Model.Mux mirrors aqua/event/event.go (one type per subscription in the model; slices as (array,len) over a heap)",
                      "the harness' global log orders events consistently with real time (mutex-protected append)"],
 }
 META = {
@@ -49,7 +54,9 @@ META = {
             "never_panics, token_exclusive, quiescent_membership hold for every reachable state of the Lean transition system of Feed (any number of "
             "senders, subscribers, removers, receivers); send_terminates / remove_terminates hold on every infinite fair execution (weak fairness per "
             "goroutine, receivers keep receiving, fair hand-off of the sendLock token; nothing assumed about which ready case reflect.Select picks); "
-            "scope_close_unsubscribes_all, scope_track_after_close_returns_nil, scope_count_after_close_zero hold for the SubscriptionScope model; every run re-checks them and drives the real event.Feed through thousands "
+            "scope_close_unsubscribes_all, scope_track_after_close_returns_nil, scope_count_after_close_zero hold for the SubscriptionScope model; "
+            "mux_exactly_once, mux_at_most_once, mux_no_delivery_after_unsubscribe_returned, mux_post_after_stop_fails hold for the TypeMux model (fresh arrays) and "
+            "mux_inplace_delete_witness refutes in-place compaction; every run re-checks them and drives the real event.Feed through thousands "
             "of perturbed schedules whose observed histories must satisfy the same Spec (judged in Go and by the compiled Lean acceptor).",
     "note": GEN + " Data races and scheduler fairness are runtime matters: a -race sub-run is part of every tier; liveness is proved relative to the explicit fairness assumptions (Aqv.Feed.Fair).",
 }
